@@ -668,6 +668,12 @@ def gen_valid_workbook(rng, size=1):
         g = FlowGen(rng, width, f"f{k}_", ctx_vars=ctx_vars, templates=templates)
         rows = g.build(rng.choice([1, 2, 3, 4]) * max(size, 1))
         sheets.append((name, ("flow", rows)))
+        if mode == "plain" and rng.random() < 0.4:
+            # an earlier definition of the same flow name from another sheet: it is compiled like any
+            # other definition ("Multiple definitions ... Overwriting"), only its result is replaced
+            g0 = FlowGen(rng, 1, f"o{k}_")
+            sheets.append((f"{name}_old", ("flow", g0.build(rng.choice([1, 2])))))
+            index.append(ixrow("create_flow", [f"{name}_old"], new=name))
         index.append(ix)
     # an ignored flow (never parsed) and a draft row
     if rng.random() < 0.3:
